@@ -1,6 +1,7 @@
 package sgen
 
 import (
+	"fmt"
 	"math/big"
 
 	"github.com/libsv/go-bk/bec"
@@ -197,13 +198,20 @@ func SigScriptsFor(t *rapid.T, tx ref.Tx, idx int) SigProgram {
 	}
 	tmpl := rapid.SampledFrom([]string{"p2pk", "p2pkh", "multisig", "multisig", "multisig", "chain"}).Draw(t, "tmpl")
 	desc = tmpl
+	// the pushes of the locking script use, one time in six, a longer form than necessary
+	// (OP_PUSHDATA1 / 2 / 4): the script code that is signed is the bytes as they are
+	lockForm := 0
+	if rapid.IntRange(0, 5).Draw(t, "lock_push_form") == 0 {
+		lockForm = rapid.IntRange(2, 4).Draw(t, "lock_push_form_v")
+		desc += fmt.Sprintf("+lockpushform%d", lockForm)
+	}
 	verifyForm := rapid.IntRange(0, 3).Draw(t, "verify_form") == 0
 	switch tmpl {
 	case "p2pk":
-		lock = append(lock, Push(keys[0].pub, 0), sigOp(verifyForm, 0xac))
+		lock = append(lock, Push(keys[0].pub, lockForm), sigOp(verifyForm, 0xac))
 		unlockOrder = []int{newSlot(0)}
 	case "p2pkh":
-		lock = append(lock, []byte{0x76}, []byte{0xa9}, Push(Hash160(keys[0].pub), 0), []byte{0x88}, sigOp(verifyForm, 0xac))
+		lock = append(lock, []byte{0x76}, []byte{0xa9}, Push(Hash160(keys[0].pub), lockForm), []byte{0x88}, sigOp(verifyForm, 0xac))
 		pubPush = append(pubPush, Push(keys[0].pub, 0))
 		unlockOrder = []int{newSlot(0), -2}
 	case "multisig":
@@ -228,7 +236,7 @@ func SigScriptsFor(t *rapid.T, tx ref.Tx, idx int) SigProgram {
 			if rapid.IntRange(0, 14).Draw(t, "badkey") == 0 {
 				kp = rapid.SampledFrom([][]byte{{}, {0x02}, append([]byte{0x05}, kp[1:]...), kp[:len(kp)-1]}).Draw(t, "badkeyv")
 			}
-			lock = append(lock, Push(kp, 0))
+			lock = append(lock, Push(kp, lockForm))
 		}
 		nDecl := n
 		if rapid.IntRange(0, 19).Draw(t, "ndecl_off") == 0 {
@@ -271,7 +279,7 @@ func SigScriptsFor(t *rapid.T, tx ref.Tx, idx int) SigProgram {
 		if nKeys > 1 {
 			second = 1
 		}
-		lock = append(lock, Push(keys[0].pub, 0), []byte{0xad}, Push(keys[second].pub, 0), sigOp(verifyForm, 0xac))
+		lock = append(lock, Push(keys[0].pub, lockForm), []byte{0xad}, Push(keys[second].pub, lockForm), sigOp(verifyForm, 0xac))
 		s1 := newSlot(0)
 		s2 := newSlot(second)
 		unlockOrder = []int{s2, s1}
@@ -305,16 +313,38 @@ func SigScriptsFor(t *rapid.T, tx ref.Tx, idx int) SigProgram {
 	}
 	// legacy digests remove pushes of the signature from the script code: sometimes put the
 	// very signature that is being checked into the locking script as well (<sig> DROP ...)
-	embed := -1
+	// ... once, or two or three times - adjacent (<sig> <sig> 2DROP) or apart (<sig> DROP <sig>
+	// DROP) - and sometimes one copy in a longer push form, which is NOT what gets removed
+	embed, embedN, embedAdjacent, embedForm := -1, 1, false, 0
 	if !forkFlag && len(slots) > 0 && rapid.IntRange(0, 5).Draw(t, "embed_sig") == 0 {
 		embed = rapid.IntRange(0, len(slots)-1).Draw(t, "embed_slot")
-		desc += "+sig-in-lock"
+		embedN = rapid.SampledFrom([]int{1, 1, 2, 2, 3}).Draw(t, "embed_n")
+		embedAdjacent = rapid.Bool().Draw(t, "embed_adjacent")
+		if rapid.IntRange(0, 3).Draw(t, "embed_form") == 0 {
+			embedForm = rapid.IntRange(2, 4).Draw(t, "embed_form_v")
+		}
+		desc += fmt.Sprintf("+sig-in-lock(x%d,adjacent=%v,form=%d)", embedN, embedAdjacent, embedForm)
 	}
 	redeemOf := func(sigs map[int][]byte) []byte {
 		if embed < 0 {
 			return lockBody
 		}
-		l := append(Push(sigs[embed], 0), 0x75)
+		var l []byte
+		for i := 0; i < embedN; i++ {
+			form := 0
+			if i == embedN-1 {
+				form = embedForm
+			}
+			l = append(l, Push(sigs[embed], form)...)
+			if !embedAdjacent {
+				l = append(l, 0x75)
+			}
+		}
+		if embedAdjacent {
+			for i := 0; i < embedN; i++ {
+				l = append(l, 0x75)
+			}
+		}
 		return append(l, lockBody...)
 	}
 	// P2SH (pre-genesis, BIP16 flag): the program above becomes the redeem script pushed last by
